@@ -30,6 +30,17 @@ def generate(chk, prop, tier, seed):
     for b in exh:
         b["fam"] = "exh"
     behs.extend(exh)
+    if prop == "C07":
+        cfg = "Perturb_c07u_%s.cfg" % ("quick" if tier == "quick" else "thorough")
+        r = tlc.run("MCPerturb.tla", cfg, timeout=6000)
+        if not r.ok():
+            raise MachineryError("TLC failed on %s: %s %s" % (cfg, r.invariant_violated, r.error))
+        chk.add_tlc(r)
+        chk.cov["tlc_runs"].append({"cfg": cfg, "generated": r.generated, "distinct": r.distinct, "behaviours": len(r.beh), "wall_s": r.wall_s})
+        for b in r.beh:
+            if b["ed"]:
+                b["fam"] = "exh-unit-sequences"
+                behs.append(b)
     if prop == "C04":
         # every catalogue variant continued at every token boundary (sweep: one non-default variant per program, the edit on that statement)
         for part in ("exec", "decl", "type"):
